@@ -1149,3 +1149,71 @@ Qed.
 Example ex_runs :
   parse_var 40 (decl_toks ex_ty (Some 1) ++ [ktok SEMI]) = DOk (1, ex_ty, [ktok SEMI]).
 Proof. vm_compute. reflexivity. Qed.
+
+(* ------------------------------------------------------------------ *)
+(* function declarations: return type, name, parameters, vararg *)
+
+Lemma fn_tail_split p v : forall ls,
+  (ls = [] \/ exists m l, ls = m ++ [l] /\ is_pfx l = true) ->
+  traill (ls ++ [LFn p v]) = [LFn p v] /\ mainl (ls ++ [LFn p v]) = ls.
+Proof.
+  induction ls as [|l r IH]; intros Hlast.
+  - split; reflexivity.
+  - assert (E : all_sfx ((l :: r) ++ [LFn p v]) = false).
+    { destruct Hlast as [Hn|(m & l' & Hm & Hp)]; [discriminate|].
+      rewrite Hm. unfold all_sfx. rewrite <- app_assoc. rewrite forallb_app. cbn [app forallb].
+      rewrite Hp. cbn [negb andb]. now rewrite andb_false_r. }
+    cbn [app] in *. rewrite (traill_cons _ _ E), (mainl_cons _ _ E).
+    assert (Hlast' : r = [] \/ exists m l', r = m ++ [l'] /\ is_pfx l' = true).
+    { destruct Hlast as [Hn|(m & l' & Hm & Hp)]; [discriminate|].
+      destruct m as [|x m'].
+      - left. cbn [app] in Hm. now inversion Hm.
+      - right. exists m', l'. cbn [app] in Hm. inversion Hm; subst. now split. }
+    destruct (IH Hlast') as [A B].
+    split; [exact A|now rewrite B].
+Qed.
+
+Lemma last_pfx_of_kind ls k :
+  (kind_end k ls = KB \/ kind_end k ls = KRef) ->
+  ls = [] \/ exists m l, ls = m ++ [l] /\ is_pfx l = true.
+Proof.
+  destruct ls as [|a ls'] using rev_ind; intros Hk; [now left|]. right.
+  exists ls', a. split; [reflexivity|].
+  unfold kind_end in Hk. rewrite fold_left_app in Hk. cbn [fold_left] in Hk.
+  destruct a; cbn [kind_after] in Hk; try reflexivity; destruct Hk; discriminate.
+Qed.
+
+Lemma nocv_P_named n : forall ls rest, nocv (P ls [mkTk T_NAME n] ++ rest) = true.
+Proof.
+  induction ls as [|l r IH]; intros rest; [reflexivity|].
+  destruct l as [c v| | |s|ps va]; try reflexivity; cbn [P].
+  - destruct (starts_pfx r); [reflexivity|]. cbn [paren]. rewrite <- app_assoc. apply IH.
+  - destruct (starts_pfx r); [reflexivity|]. cbn [paren]. rewrite <- app_assoc. apply IH.
+Qed.
+
+Theorem fn_roundtrip rt ps va n rest :
+  wf (TFn rt ps va) -> nolb rest = true ->
+  ev (fun f => fn_decl f (decl_toks (TFn rt ps va) (Some n) ++ rest)) (DOk (n, rt, ps, va, rest)).
+Proof.
+  intros Hwf Hnl.
+  pose proof (legal_layers _ Hwf) as Hleg. pose proof (layers_ok _ Hwf) as Hok.
+  destruct (decl_view (TFn rt ps va) (Some n)) as (b & c & v & Ed & Ew).
+  cbn [layers] in *.
+  apply wf_fn in Hwf. destruct Hwf as (Hwr & Hkr & Hps).
+  assert (Hk : kind_end KB (layers rt) = KB \/ kind_end KB (layers rt) = KRef) by (now rewrite kind_layers).
+  destruct (fn_tail_split ps va (layers rt) (last_pfx_of_kind _ _ Hk)) as [Et Em].
+  assert (Hcore : SNk [mkTk T_NAME n]) by (apply SN_plain_tok; [reflexivity|constructor]).
+  pose proof (cvptr_P _ (layers rt ++ [LFn ps va]) (le_n _) (TBase b c v) [mkTk T_NAME n] rest Hleg Hok Hcore) as Hcv.
+  rewrite Et, Em in Hcv. specialize (Hcv eq_refl Hnl). destruct Hcv as [f1 H1].
+  assert (Hl : layer_ok (LFn ps va)).
+  { apply Forall_app in Hok. destruct Hok as [_ H]. now inversion H. }
+  destruct Hl as [_ Hprm]. destruct (Hprm rest) as [f2 H2].
+  assert (Hw : wrap (TBase b c v) (layers rt) = rt).
+  { unfold wrap in Ew |- *. rewrite fold_left_app in Ew. cbn [fold_left wrap1] in Ew. congruence. }
+  assert (Hnf : is_fn rt = false) by (destruct rt; cbn in *; try reflexivity; destruct Hkr; discriminate).
+  exists (Nat.max f1 f2). intros f Hge. unfold fn_decl.
+  rewrite Ed, <- app_assoc. cbn [name_toks].
+  rewrite parse_base_rt by apply nocv_P_named.
+  rewrite H1 by lia. rewrite Hw, Hnf. cbn [P starts_pfx paren app]. isc. cbn [kval].
+  rewrite <- app_assoc. cbn [app]. rewrite H2 by lia. reflexivity.
+Qed.
